@@ -134,7 +134,7 @@ const maxDepth = 400
 func (p *Path) callFunction(fn *ssa.Function, args []Value, env []Value) (res Value) {
 	fi := infoOf(fn)
 	if p.hr != nil {
-		if ov, ok := p.hr.overrides[fi.name]; ok {
+		if ov, ok := p.hr.overrides[fi.name]; ok && p.bypass[fi.name] == 0 {
 			return ov(p, fn, args)
 		}
 		if p.hr.prefixOverrides != nil {
